@@ -4,7 +4,11 @@
 //!   facts := `-` | `F<i>=<val>,…`     val := `t` | `f` | `n<int>` (Number) | `i<int>` (Integer) | `s<word>` (String;
 //!            `<word>` may be empty = the empty string, and `_` in it stands for a blank: `sa_b` = "a b", `s_` = " ")
 //!   query := atom                      atom := `F<i>.<op>.<val>`   op := eq|ne|gt|lt|ge|le
-//!   rules := `-` | rule;rule;…         rule := `<cond>~F<i>:=<val>+F<j>:=<val>…`
+//!   rules := `-` | rule;rule;…         rule := `<cond>~<action>+<action>…`
+//!   action:= `F<i>:=<val>` Set | `F<i><<<scalar>` Append (`+=`) | `F<i>!` Retract | `F<i>$<int>` MethodCall F<i>.setSpeed(Number)
+//!            | `F4$g` MethodCall E.getSpeed() (writes the result to `E._return` = F10)
+//!            further val forms (facts / Set literals): `a` = empty array, `a<scalar>^<scalar>…` = array of scalars,
+//!            `o<int>` = Object {"Speed": Number}
 //!   cond  := prefix notation, tokens separated by `,`:  `&` c c | `/` c c | atom
 //! obs   := `<provable 1|0|err> <facts after, sorted by field index> <undo depth after> <#solutions>`
 //! Rule i is named `R<i>`; field i is FIELDS[i].
@@ -16,9 +20,10 @@ use rust_rule_engine::engine::knowledge_base::KnowledgeBase;
 use rust_rule_engine::engine::rule::{Condition, ConditionGroup, Rule};
 use rust_rule_engine::types::{ActionType, LogicalOperator, Operator, Value};
 
-pub const FIELDS: [&str; 10] = ["A", "B", "C", "D", "E", "G", "X", "Y", "U.P", "U.Q"];
+/// field 10 is the key a value-returning MethodCall on `E` (field 4) writes its result to
+pub const FIELDS: [&str; 11] = ["A", "B", "C", "D", "E", "G", "X", "Y", "U.P", "U.Q", "E._return"];
 
-fn parse_val(s: &str) -> Option<Value> {
+fn parse_scalar(s: &str) -> Option<Value> {
     match s.chars().next()? {
         't' if s == "t" => Some(Value::Boolean(true)),
         'f' if s == "f" => Some(Value::Boolean(false)),
@@ -29,6 +34,19 @@ fn parse_val(s: &str) -> Option<Value> {
     }
 }
 
+fn parse_val(s: &str) -> Option<Value> {
+    match s.chars().next()? {
+        'a' if s == "a" => Some(Value::Array(Vec::new())),
+        'a' => Some(Value::Array(s[1..].split('^').map(parse_scalar).collect::<Option<Vec<_>>>()?)),
+        'o' => {
+            let mut m = std::collections::HashMap::new();
+            m.insert("Speed".to_string(), Value::Number(s[1..].parse::<i64>().ok()? as f64));
+            Some(Value::Object(m))
+        }
+        _ => parse_scalar(s),
+    }
+}
+
 fn show_val(v: &Value) -> String {
     match v {
         Value::Boolean(true) => "t".into(),
@@ -36,6 +54,13 @@ fn show_val(v: &Value) -> String {
         Value::Number(x) if x.fract() == 0.0 && x.abs() < 1e15 => format!("n{}", *x as i64),
         Value::Integer(i) => format!("i{}", i),
         Value::String(s) if s.chars().all(|c| c.is_ascii_alphanumeric() || c == ' ') => format!("s{}", s.replace(' ', "_")),
+        Value::Array(l) if l.iter().all(|e| !matches!(e, Value::Array(_) | Value::Object(_))) => {
+            format!("a{}", l.iter().map(show_val).collect::<Vec<_>>().join("^"))
+        }
+        Value::Object(m) if m.len() == 1 => match m.get("Speed") {
+            Some(Value::Number(x)) if x.fract() == 0.0 && x.abs() < 1e15 => format!("o{}", *x as i64),
+            _ => "?".into(),
+        },
         _ => "?".into(),
     }
 }
@@ -92,8 +117,24 @@ fn parse_rule(i: usize, s: &str) -> Option<Rule> {
     }
     let mut acts = Vec::new();
     for asg in a.split('+') {
-        let (f, v) = asg.split_once(":=")?;
-        acts.push(ActionType::Set { field: FIELDS[parse_field(f)?].to_string(), value: parse_val(v)? });
+        if let Some((f, v)) = asg.split_once(":=") {
+            acts.push(ActionType::Set { field: FIELDS[parse_field(f)?].to_string(), value: parse_val(v)? });
+        } else if let Some((f, v)) = asg.split_once("<<") {
+            acts.push(ActionType::Append { field: FIELDS[parse_field(f)?].to_string(), value: parse_scalar(v)? });
+        } else if let Some(f) = asg.strip_suffix("$g") {
+            if parse_field(f)? != 4 {
+                return None;
+            }
+            acts.push(ActionType::MethodCall { object: FIELDS[4].to_string(), method: "getSpeed".to_string(), args: vec![] });
+        } else if let Some((f, n)) = asg.split_once('$') {
+            acts.push(ActionType::MethodCall {
+                object: FIELDS[parse_field(f)?].to_string(),
+                method: "setSpeed".to_string(),
+                args: vec![Value::Number(n.parse::<i64>().ok()? as f64)],
+            });
+        } else {
+            acts.push(ActionType::Retract { object: FIELDS[parse_field(asg.strip_suffix('!')?)?].to_string() });
+        }
     }
     Some(Rule::new(format!("R{}", i), cond, acts))
 }
@@ -421,6 +462,252 @@ fn gen_strlit(rng: &mut Rng) -> String {
     }
 }
 
+
+// ------------------------------------------------ C10 part B families (also run by C09: the model predicts them)
+
+/// "a first alternative fails at depth >= 1 after it — or its sub-goals — wrote to the facts, a LATER alternative
+/// succeeds, and the enclosing rule then fails on an underivable last conjunct": the query is not provable and every
+/// derived fact has to be gone again; any arm of the candidate loop that closes one frame too many / too few at depth
+/// >= 1 leaves the later alternative's conclusion behind (or leaks a frame). The first alternative ("main", concluding
+/// F2) fails in every way the DFS distinguishes:
+///   0/1 interference — both conditions are provable, but the rule proving the second one undoes the first
+///       (second assignment / Retract / Append over it), so the retry reports Ok(false);
+///   2   conditions proven, an action fails on the retry (Err), before or after another action wrote;
+///   3   conditions true at once, an action fails on the first attempt (Err);
+///   4   the rule fires with the wrong value (Ok(true), goal not proven), directly or after a sub-goal;
+///   5   its second condition is underivable (the first sub-goal's derivation has to be undone);
+///   6   a chain below it that `max_depth` cuts at different levels.
+/// The later alternative is an Or-branch of the enclosing condition ((main || spare) && permit), a second candidate
+/// rule for the same sub-goal, or (main && permit) || (spare && permit). 0..2 wrapper rules put the enclosing rule
+/// at depth 0..2. Returns the body and the max_depth at which everything is explored.
+fn gen_interfere(rng: &mut Rng) -> (String, u64) {
+    let mut rules: Vec<String> = Vec::new();
+    // the arms reached only through a failing RETRY (0/1/2) are the rare ones elsewhere: 5 of 9 here
+    let way = [0, 0, 1, 2, 2, 3, 4, 5, 6][rng.below(9) as usize];
+    let swap = rng.chance(1, 6);
+    let both = |a: &str, b: &str| if swap { format!("&,{},{}", b, a) } else { format!("&,{},{}", a, b) };
+    let mut need = 2;
+    match way {
+        0 | 1 => {
+            let undo = *rng.pick(&["F0:=f", "F0!", "F0<<sx", "F0:=n0", "F0:=f+F8<<sx", "F8<<sx+F0!"]);
+            rules.push("F6.eq.n1~F0:=t".to_string());
+            rules.push(format!("F6.eq.n1~F1:=t+{}", undo));
+            rules.push(format!("{}~F2:=t", both("F0.eq.t", "F1.eq.t")));
+        }
+        2 => {
+            rules.push("F6.eq.n1~F0:=t".to_string());
+            rules.push("F6.eq.n1~F1:=t".to_string());
+            let acts = *rng.pick(&["F4$1+F2:=t", "F8<<sx+F4$1+F2:=t", "F2:=t+F4$1", "F2:=t+F8<<sa+F4$2"]);
+            rules.push(format!("{}~{}", both("F0.eq.t", "F1.eq.t"), acts));
+        }
+        3 => {
+            let acts = *rng.pick(&["F4$1+F2:=t", "F8<<sx+F4$1+F2:=t", "F2:=t+F4$1", "F0:=t+F8<<sa+F4$2+F2:=t"]);
+            rules.push(format!("F6.eq.n1~{}", acts));
+        }
+        4 => {
+            if rng.chance(1, 2) {
+                rules.push("F6.eq.n1~F0:=t".to_string());
+                rules.push(format!("F0.eq.t~F2:={}", *rng.pick(&["f", "f+F8<<sx", "n1", "a"])));
+            } else {
+                rules.push(format!("F6.eq.n1~F2:={}", *rng.pick(&["f", "f+F8<<sx", "st", "o1"])));
+            }
+        }
+        5 => {
+            rules.push(format!("F6.eq.n1~F0:=t{}", *rng.pick(&["", "+F8<<sx", "+F8!"])));
+            rules.push(format!("{}~F2:=t", both("F0.eq.t", "F6.eq.n2")));
+        }
+        _ => {
+            rules.push("F6.eq.n1~F4:=t".to_string());
+            rules.push("F4.eq.t~F1:=t".to_string());
+            rules.push(format!("F1.eq.t~F0:=t{}", *rng.pick(&["", "+F8<<sx"])));
+            rules.push("F0.eq.t~F2:=t".to_string());
+            need = 4;
+        }
+    }
+    let spare_extra = *rng.pick(&["", "", "+F8<<sa", "+F8!", "+F8<<n1"]);
+    let permit = "F7.eq.t";
+    let form = rng.below(4);
+    let cond = match form {
+        0 | 1 => {
+            rules.push(format!("F6.eq.n1~F3:=t{}", spare_extra));
+            format!("&,/,F2.eq.t,F3.eq.t,{}", permit)
+        }
+        2 => {
+            // second candidate rule for the sub-goal F2 (tried after "main": insertion order)
+            rules.push(format!("F6.eq.n1~F2:=t{}", spare_extra));
+            format!("&,F2.eq.t,{}", permit)
+        }
+        _ => {
+            rules.push(format!("F6.eq.n1~F3:=t{}", spare_extra));
+            format!("/,&,F2.eq.t,{},&,F3.eq.t,{}", permit, permit)
+        }
+    };
+    rules.push(format!("{}~F5:=t", cond));
+    // the permit: absent, false, behind a dead end — or (1 in 6) derivable: then the query is provable
+    let mut facts = vec!["F6=n1".to_string()];
+    match rng.below(6) {
+        0 | 1 => {}
+        2 => facts.push("F7=f".to_string()),
+        3 => rules.push("F6.eq.n2~F7:=t".to_string()),
+        4 => rules.push("F6.eq.n1~F7:=f".to_string()),
+        _ => rules.push("F6.eq.n1~F7:=t".to_string()),
+    }
+    if rng.chance(1, 4) {
+        facts.push(format!("F8={}", *rng.pick(&["a", "asx", "t", "o1"])));
+    }
+    // wrappers: the enclosing rule at depth 0, 1 or 2
+    let k = if way == 2 || way == 3 || way >= 6 { rng.below(2) } else { rng.below(3) };
+    let mut goal = 5;
+    if k >= 1 {
+        rules.push("F5.eq.t~F9:=t".to_string());
+        goal = 9;
+    }
+    if k >= 2 {
+        rules.push("F9.eq.t~F4:=t".to_string());
+        goal = 4;
+    }
+    if rng.chance(1, 3) {
+        rng.shuffle(&mut rules);
+    }
+    (format!("{} F{}.eq.t {}", facts.join(","), goal, rules.join(";")), k + need)
+}
+
+const SCALARS: [&str; 8] = ["t", "f", "n1", "n2", "i1", "sx", "sab", "s"];
+
+/// one action that is not a Set, on one of the `targets`
+fn rand_extra(rng: &mut Rng, targets: &[u64]) -> String {
+    let f = *rng.pick(targets);
+    match rng.below(8) {
+        0..=3 => format!("F{}<<{}", f, *rng.pick(&SCALARS)),
+        4..=5 => format!("F{}!", f),
+        _ if f == 4 && rng.chance(1, 2) => "F4$g".to_string(),
+        _ => format!("F{}${}", f, rng.below(3)),
+    }
+}
+
+/// initial value of a field that Append / Retract / MethodCall actions work on: array, scalar or object
+fn rand_target_val(rng: &mut Rng) -> String {
+    match rng.below(6) {
+        0 => "a".to_string(),
+        1 => format!("a{}", *rng.pick(&SCALARS)),
+        2 => format!("a{}^{}", *rng.pick(&SCALARS), *rng.pick(&SCALARS)),
+        3 => (*rng.pick(&SCALARS)).to_string(),
+        _ => format!("o{}", rng.below(3)),
+    }
+}
+
+/// the action list `Set <set>` with 0..2 other actions before / after it
+fn with_extras(rng: &mut Rng, set: &str, targets: &[u64], p_num: u64) -> String {
+    let mut acts = vec![set.to_string()];
+    for _ in 0..2 {
+        if rng.chance(p_num, 4) {
+            let e = rand_extra(rng, targets);
+            if rng.chance(1, 2) { acts.push(e) } else { acts.insert(0, e) }
+        }
+    }
+    acts.join("+")
+}
+
+/// rules that fire on the way of a (mostly failing) proof carry Append (on an absent field / an existing array / a
+/// value that is not an array), Retract (of an absent / present field, of the seed fact, of a fact derived earlier)
+/// and MethodCall (absent object and non-object: Err after the earlier actions of the rule wrote; object: success)
+/// actions besides their Set. Chain F6 -> F0 -> … -> F{len-1}, goal rule `F{len-1} && F7 -> F5` (F7 underivable in
+/// 2 of 3), rival goal rules that fire at depth 0 with the wrong value (what BFS / iterative reach).
+fn gen_actions(rng: &mut Rng) -> String {
+    let len = rng.range(1, 3);
+    let mut targets: Vec<u64> = vec![4, 8, 9];
+    if rng.chance(1, 4) {
+        targets.push(6); // the seed fact itself
+    }
+    if rng.chance(1, 4) {
+        targets.push(rng.below(len)); // a fact derived on the way
+    }
+    let mut rules = Vec::new();
+    rules.push(format!("F6.eq.n1~{}", with_extras(rng, "F0:=t", &targets, 2)));
+    for i in 1..len {
+        rules.push(format!("F{}.eq.t~{}", i - 1, with_extras(rng, &format!("F{}:=t", i), &targets, 2)));
+    }
+    let last = len - 1;
+    let v = if rng.chance(1, 4) { "f" } else { "t" };
+    match rng.below(3) {
+        0 => rules.push(format!("&,F{}.eq.t,F7.eq.t~{}", last, with_extras(rng, &format!("F5:={}", v), &targets, 1))),
+        1 => rules.push(format!("&,F7.eq.t,F{}.eq.t~{}", last, with_extras(rng, &format!("F5:={}", v), &targets, 1))),
+        _ => rules.push(format!("F{}.eq.t~{}", last, with_extras(rng, &format!("F5:={}", v), &targets, 1))),
+    }
+    if rng.chance(1, 2) {
+        // fires at depth 0 on the initial facts, with the wrong value for the goal
+        rules.push(format!("F6.eq.n1~{}", with_extras(rng, "F5:=f", &targets, 3)));
+    }
+    if rng.chance(1, 4) {
+        // a rule with no Set at all (Retract is indexed by the conclusion index, Append is not)
+        rules.push(format!("F6.eq.n1~{}", rand_extra(rng, &[5, 4, 8])));
+    }
+    rng.shuffle(&mut rules);
+    let mut facts = Vec::new();
+    if rng.chance(7, 8) {
+        facts.push("F6=n1".to_string());
+    }
+    if rng.chance(1, 3) {
+        facts.push("F7=t".to_string());
+    }
+    for f in [4u64, 8, 9] {
+        if f == 4 && rng.chance(1, 3) {
+            facts.push(format!("F4=o{}", rng.below(3))); // the receiver of setSpeed / getSpeed exists
+        } else if rng.chance(1, 2) {
+            facts.push(format!("F{}={}", f, rand_target_val(rng)));
+        }
+    }
+    let q = match rng.below(9) {
+        0 => "F5.ne.t".to_string(),
+        1 => format!("F{}.ne.t", *rng.pick(&[4u64, 8, 9])), // a field the non-Set actions work on
+        2 => format!("F10.eq.n{}", rng.below(3)),           // what E.getSpeed() returns (key `E._return`)
+        _ => "F5.eq.t".to_string(),
+    };
+    format!("{} {} {}", if facts.is_empty() { "-".to_string() } else { facts.join(",") }, q, rules.join(";"))
+}
+
+/// general KBs (And/Or, all operators) whose action lists mix Set / Append / Retract / MethodCall at random, over
+/// facts that hold arrays and objects as well
+fn gen_general_actions(rng: &mut Rng) -> String {
+    let nf = rng.range(2, 6);
+    let nrules = rng.range(1, 7);
+    let all: Vec<u64> = (0..nf).collect();
+    let mut rules = Vec::new();
+    for _ in 0..nrules {
+        let c = rand_cond(rng, nf, false, 0);
+        let mut acts = Vec::new();
+        for _ in 0..rng.range(1, 3) {
+            if rng.chance(1, 2) {
+                acts.push(format!("F{}:={}", rng.below(nf), rand_val(rng, false)));
+            } else {
+                acts.push(rand_extra(rng, &all));
+            }
+        }
+        rules.push(format!("{}~{}", c, acts.join("+")));
+    }
+    let mut facts = Vec::new();
+    for f in 0..nf {
+        if rng.chance(1, 2) {
+            facts.push(format!("F{}={}", f, if rng.chance(1, 3) { rand_target_val(rng) } else { rand_val(rng, false) }));
+        }
+    }
+    let qv = match rng.below(6) {
+        0..=2 => "t".to_string(),
+        3 => "f".to_string(),
+        4 => format!("n{}", rng.below(3)),
+        _ => "sab".to_string(),
+    };
+    let qop = if rng.chance(3, 4) { "eq" } else { *rng.pick(&["ne", "gt", "lt", "ge", "le"]) };
+    format!(
+        "{} F{}.{}.{} {}",
+        if facts.is_empty() { "-".to_string() } else { facts.join(",") },
+        rng.below(nf),
+        qop,
+        qv,
+        rules.join(";")
+    )
+}
+
 fn gen(rng: &mut Rng, n: usize, _tier: &str) -> Vec<String> {
     let mut out = Vec::new();
     for i in 0..n {
@@ -474,6 +761,27 @@ fn gen(rng: &mut Rng, n: usize, _tier: &str) -> Vec<String> {
             out.push(format!("{}{}s1 {}", strat, depth, body));
         }
     }
+    // failing-first-alternative family (C10 part B): every problem under EVERY strategy; DFS at the depth that explores
+    // everything (or one / two more), at a random smaller depth, and with max_solutions 3
+    for _ in 0..n / 12 {
+        let (body, need) = gen_interfere(rng);
+        let d = (need + rng.below(2)).min(6);
+        out.push(format!("D{}s1 {}", d, body));
+        out.push(format!("D{}s{} {}", if rng.chance(1, 2) { d } else { rng.below(7) }, if rng.chance(1, 2) { 1 } else { 3 }, body));
+        out.push(format!("B{}s1 {}", d, body));
+        out.push(format!("I{}s1 {}", d, body));
+    }
+    // non-Set actions family (C10 part B): Append / Retract / MethodCall on the way of failing and succeeding proofs
+    for i in 0..n / 8 {
+        let body = if i % 3 == 2 { gen_general_actions(rng) } else { gen_actions(rng) };
+        let d = if rng.chance(3, 4) { rng.range(3, 5) } else { rng.below(7) };
+        out.push(format!("D{}s1 {}", d, body));
+        if rng.chance(1, 2) {
+            out.push(format!("D{}s3 {}", d, body));
+        }
+        out.push(format!("B{}s1 {}", d, body));
+        out.push(format!("I{}s{} {}", d, if rng.chance(3, 4) { 1 } else { 3 }, body));
+    }
     out
 }
 
@@ -495,10 +803,15 @@ fn shrink(case: &str) -> Vec<String> {
     // drop second assignments, replace compound conditions by one side
     for (i, r) in rules.iter().enumerate() {
         if let Some((c, a)) = r.split_once('~') {
-            if let Some((a1, _)) = a.split_once('+') {
-                let mut v = rules.clone();
-                v[i] = format!("{}~{}", c, a1);
-                out.push(format!("{} {} {} {}", t[0], t[1], t[2], j(&v, ";")));
+            let acts: Vec<&str> = a.split('+').collect();
+            if acts.len() > 1 {
+                for k in 0..acts.len() {
+                    let mut rest = acts.clone();
+                    rest.remove(k);
+                    let mut v = rules.clone();
+                    v[i] = format!("{}~{}", c, rest.join("+"));
+                    out.push(format!("{} {} {} {}", t[0], t[1], t[2], j(&v, ";")));
+                }
             }
             let toks: Vec<&str> = c.split(',').collect();
             if toks.len() > 1 {
